@@ -71,6 +71,13 @@ func run(c memCase, mem uint64) obs {
 	} else {
 		close(sampled)
 	}
+	mc := c
+	mc.Mem = mem
+	if mc.Kind == "" {
+		mc.Kind = "intercept"
+	}
+	progcheck.SkipInflight = true
+	progcheck.MarkInflight(mc.Kind, mc)
 	o.tr = progcheck.RunGolua(progcheck.Case{Source: c.Source, Args: c.Args}, harness.Opts{Mem: mem, CPU: c.CPU, EventHook: func(r *rt.Runtime, e string) {
 		u := r.UsedResources().Memory
 		if mem > 0 && u >= mem && o.overrun == "" {
@@ -518,7 +525,19 @@ func TestC06(t *testing.T) {
 func checkTemplate(c memCase) string {
 	o, hung := runWatched(c, c.Mem, 90*time.Second)
 	if hung {
-		return "the call did not come back within 2 x 90 s"
+		// slow or unstoppable? Work that is metered ends when the CPU budget
+		// does: with a twentieth of the budget it must come back; only work
+		// that no budget bounds is reported (wall-clock time alone is never
+		// a verdict: the machine may be loaded)
+		small := c
+		small.CPU = c.CPU / 20
+		if small.CPU == 0 {
+			small.CPU = 1_000_000
+		}
+		if _, hung2 := runWatched(small, c.Mem, 90*time.Second); hung2 {
+			return fmt.Sprintf("the call did not come back within 2 x 90 s, nor with a CPU budget of %d instead of %d: no budget bounds it", small.CPU, c.CPU)
+		}
+		return ""
 	}
 	if msg := basic(o, c.Mem); msg != "" {
 		return msg
